@@ -53,6 +53,7 @@ def run(ctx, report: Report) -> None:
                 for v in dn.values:
                     names.append(inv.by_name(f'pretty.{unparse(v)}'))
             nullable = []
+            ambiguous = []
             for r in names:
                 s = rx.System()
                 a = s.add('r', r.pattern, r.flags)
@@ -60,14 +61,25 @@ def run(ctx, report: Report) -> None:
                 n, _ = a.shortest()
                 if n is None or n < 1:
                     nullable.append(r.name)
+                try:
+                    eda = a.find_eda()
+                except rx.Unsupported as e:
+                    raise AnalysisError(f'{r.name}: outside the exact regex model: {e}')
+                if eda:
+                    ambiguous.append((r, eda[0]))
             r1.instance({'loop': f'{fq}: while {unparse(lp.node.test)}', 'index': lp.idx,
                          'match_regexes': len(names), 'nullable_regexes': nullable,
                          'paths_without_progress': lp.bad_paths, 'bound_untouched': lp.test_ok}, key=fq)
-            r1.obligation(not lp.bad_paths and not nullable and lp.test_ok)
+            r1.obligation(not lp.bad_paths and not nullable and lp.test_ok and not ambiguous)
             for b in lp.bad_paths:
                 r1.violation(f'{fq} loop-progress {b}', mod.where(lp.node),
                              f'{fq}: a path returns to the head of `while {unparse(lp.node.test)}` with the {b}: the loop '
                              f'never terminates on input that takes this path')
+            for r, eda in ambiguous:
+                r1.violation(f'{fq} regex {r.name} exponential', r.where,
+                             f'{fq}: regex {r.name} ({r.pattern!r}) is exponentially ambiguous (pump {eda.get("pump")!r}): a failing match '
+                             f'attempt (e.g. an unterminated string in a truncated repr) backtracks for ever, so the scanner never '
+                             f'returns')
             for nm in nullable:
                 r1.violation(f'{fq} nullable {nm}', mod.where(lp.node),
                              f'{fq}: regex {nm} can match the empty string, so `{lp.idx} = m.end(0)` need not advance')
@@ -265,3 +277,25 @@ def run(ctx, report: Report) -> None:
     if not ok:
         r5.violation('util.SelectorSyntaxError.__init__ fields', umod.where(call),
                      'SelectorSyntaxError no longer stores context, line and col from get_pattern_context(pattern, index)')
+
+    # ---- R6 ----------------------------------------------------------------------------------------------
+    r6 = report.rule('C20-R6', 'lines of a pattern are delimited by LF, CR and CRLF only', floor=1)
+    ls = inv.find('util.RE_PATTERN_LINE_SPLIT')
+    if ls is None:
+        raise AnalysisError('util.RE_PATTERN_LINE_SPLIT not found (anchor vanished)')
+    s = rx.System()
+    try:
+        A = s.add('split', ls.pattern, ls.flags)
+        B = s.add('ref', '(?:\\r\\n|\\n|\\r)?', 0)
+        s.freeze()
+        d = rx.equivalent(A, B)
+    except rx.Unsupported as e:
+        raise AnalysisError(f'RE_PATTERN_LINE_SPLIT outside the exact regex model: {e}')
+    r6.instance({'RE_PATTERN_LINE_SPLIT': ls.pattern, 'difference_from_{CRLF, LF, CR, end}': d}, key='linesplit')
+    r6.obligation(d is None)
+    if d is not None:
+        r6.violation(f'util.RE_PATTERN_LINE_SPLIT {d[0]} {d[1]!r}', ls.where,
+                     f'the line splitter of get_pattern_context {"also splits on" if d[0] == "only-in-first" else "no longer splits on"} '
+                     f'{d[1]!r}: the line and column reported by SelectorSyntaxError count lines as CRLF, LF or CR (a form feed or other '
+                     f'white space stays inside its line)')
+
